@@ -533,6 +533,13 @@ func genTurochamp(o *Out, r *rand.Rand, thorough bool) {
 		if strings.HasPrefix(res, "HARNESS") || res == "panic" {
 			o.Count("tc:HARNESS-PROBLEM")
 		}
+		if strings.Contains(res, "cas=1") && tcPushPop < 40 {
+			// the evaluation after every legal move was tried and taken back on the SAME board (a search does exactly that) is the
+			// evaluation before: nothing the evaluator reads - the has-castled flags among it - may be left behind
+			tcPushPop++
+			o.do("published tcpushpop " + strings.TrimPrefix(line, "turochamp "))
+			o.Count("tc:push-pop-then-evaluate")
+		}
 		// colour-blindness on the real code: the mirrored, colour-swapped line
 		if strings.Count(start, " ") == 5 && b.Position().Piece(board.White, board.King) != 0 && b.Position().Piece(board.Black, board.King) != 0 && res != "panic" {
 			func() {
@@ -661,4 +668,36 @@ func randomLineFrom(r *rand.Rand, start string, maxPlies int) (string, []string,
 		moves = append(moves, "m:"+moveUci(m))
 	}
 	return start, moves, b
+}
+
+var tcPushPop int
+
+func init() {
+	registerEval("tcpushpop", func(a []string) string {
+		i := 0
+		for i < len(a) && a[i] != ";" {
+			i++
+		}
+		var moves []string
+		if i < len(a) {
+			moves = a[i+1:]
+		}
+		b := boardFromLine(strings.Join(a[:i], " "), moves)
+		ctx := context.Background()
+		before := turochamp.Eval{}.Evaluate(ctx, b)
+		cw, cb := b.HasCastled(board.White), b.HasCastled(board.Black)
+		for _, m := range b.Position().PseudoLegalMoves(b.Turn()) {
+			if b.PushMove(m) {
+				b.PopMove()
+				if b.HasCastled(board.White) != cw || b.HasCastled(board.Black) != cb {
+					return fmt.Sprintf("MISMATCH after %v was played and taken back the has-castled flags are %v/%v, they were %v/%v", m, b.HasCastled(board.White), b.HasCastled(board.Black), cw, cb)
+				}
+			}
+		}
+		after := turochamp.Eval{}.Evaluate(ctx, b)
+		if float32(after) != float32(before) {
+			return fmt.Sprintf("MISMATCH the evaluation is %s before and %s after every legal move was tried and taken back", fmt32(float32(before)), fmt32(float32(after)))
+		}
+		return "ok"
+	})
 }
